@@ -145,6 +145,33 @@ func execAddr(c Case) string {
 			out = append(out, decObs(d, err))
 		}
 		return strings.Join(out, " ")
+	case "conv": // conv <kind> <net> <hash> <target net>
+		ad, err := construct(a[0], netIdx(a[1]), unhx(a[2]))
+		if err != nil || isNilAddr(ad) {
+			return "ctorerr"
+		}
+		tn := netIdx(a[3])
+		tok := func(x bchutil.Address, err error) string {
+			if err != nil {
+				return "err," + addrErr(err)
+			}
+			return addrKind(x) + "," + hs(x.EncodeAddress()) + "," + netBits(x)
+		}
+		s1, e1 := bchutil.ConvertCashToSlpAddress(ad, tn)
+		var s2 bchutil.Address
+		e2 := e1
+		if e1 == nil {
+			s2, e2 = bchutil.ConvertSlpToCashAddress(s1, tn)
+		}
+		s3, e3 := bchutil.ConvertSlpToCashAddress(ad, tn)
+		return tok(s1, e1) + " " + tok(s2, e2) + " " + tok(s3, e3)
+	case "pk2pkh": // pk2pkh <net> <serialized pubkey>
+		pk, err := bchutil.NewAddressPubKey(unhx(a[1]), netIdx(a[0]))
+		if err != nil {
+			return "ctorerr"
+		}
+		h := pk.AddressPubKeyHash()
+		return hx(h.ScriptAddress()) + "," + hs(h.EncodeAddress()) + "," + netBits(h)
 	case "conc": // conc <k> <iters> <seed>: the constructors/encoders are pure functions; used from k goroutines they must agree with sequential use
 		k, iters, seed := atoi(a[0]), atoi(a[1]), atou(a[2])
 		mk := func(g, j int) string {
@@ -422,6 +449,13 @@ func genC01(r *Rng, tier string, emit func(Case)) {
 			bad[r.Intn(len(bad))] ^= byte(1 << uint(r.Intn(8)))
 			e("addr", "pubkeybad", "pk", itoa(ni), hx(bad))
 		}
+		e("conv", "rand", []string{"pkh", "sh", "slppkh", "slpsh", "sh32", "lpkh", "pk"}[r.Intn(7)], itoa(ni), hx(func() []byte {
+			if r.Intn(7) == 6 {
+				return serPub(pub, f)
+			}
+			return genHashes(r, r.Pick(20, 20, 20, 32))
+		}()), itoa(r.Intn(len(nets))))
+		e("pk2pkh", "rand", itoa(ni), hx(serPub(pub, r.Intn(3))))
 		// white-box kernels
 		e("pm", "rand", hx(to5(r.Bytes(r.Intn(40)), 0)))
 		d := r.Bytes(r.Intn(40))
